@@ -7,9 +7,9 @@ use proptest::prelude::*;
 use rusl::string::unix_str::{UnixStr, UnixString};
 use serde::{Deserialize, Serialize};
 
-use vh::ensure;
-use vh::runner::{no_panic, CaseReport, CaseResult, Ctx, Failure};
-use vh::util::{all_strings, escape, with_nul, BStr};
+use crate::ensure;
+use crate::runner::{no_panic, CaseReport, CaseResult, Ctx, Failure};
+use crate::util::{all_strings, escape, with_nul, BStr};
 
 pub const ALPHA: [u8; 7] = [0x00, b'/', b'a', b'b', b'.', 0x80, 0xff];
 pub const ALPHA_NONUL: [u8; 6] = [b'/', b'a', b'b', b'.', 0x80, 0xff];
